@@ -63,7 +63,7 @@ Definition truth (s : st) : Prop :=
   forall x, 1 <= x -> x <> lockpg s -> dbc s x = file_h s x \/ (pageN s < x /\ dbc s x = 0).
 
 Record Mid (k : bool) (s0 s : st) : Prop := {
-  m_w : writeable s = true; m_mode : wal_mode s = false; m_lock : lockpg s = lockpg s0; m_lk1 : 1 <= lockpg s;
+  m_w : writeable s = true; m_mode : wal_mode s = wal_mode s0; m_lock : lockpg s = lockpg s0; m_lk1 : 1 <= lockpg s;
   m_pn : pageN s = pageN s0; m_tx : txid s = txid s0; m_chk : chk s = chk s0;
   m_cache : CacheOK s; m_lz : LockZero s; m_truth : truth s;
   m_p1 : k = true -> forall q, file_pg s 1 = Some q -> pg_wal q = false
@@ -72,9 +72,45 @@ Record Mid (k : bool) (s0 s : st) : Prop := {
 Lemma file_pg_h s p q : file_pg s p = Some q -> file_h s p = pg_h q.
 Proof. unfold file_h. intros ->. reflexivity. Qed.
 
-Lemma mid_write k s0 s p q : Mid k s0 s -> 1 <= p -> (k = true -> pg_wal q = false) -> Mid k s0 (snd (op_write_page s p q)) /\ fst (op_write_page s p q) = Done.
+Lemma mid_write k s0 s p q : Mid k s0 s -> wal_mode s0 = false -> 1 <= p -> (k = true -> pg_wal q = false) -> Mid k s0 (snd (op_write_page s p q)) /\ fst (op_write_page s p q) = Done.
 Proof.
-  intros M Hp Hw. destruct M. unfold op_write_page. rewrite m_w0, m_mode0. cbn [negb fst snd]. split; [|reflexivity].
+  intros M Hm0 Hp Hw. destruct M. unfold op_write_page. rewrite m_w0, m_mode0, Hm0. cbn [negb fst snd]. split; [|reflexivity].
+  set (sd := with_dirty s (insert_sorted p (dirty s))).
+  assert (CacheOK sd) as HCd by exact m_cache0. assert (LockZero sd) as HLd by exact m_lz0.
+  destruct (write_db_page_facts sd p q Hp m_lk2 HCd HLd) as [A1 [A2 [A3 [A4 [A5 [A6 [A7 [A8 [A9 A10]]]]]]]]].
+  change (lockpg sd) with (lockpg s) in *. change (pageN sd) with (pageN s) in *. change (writeable sd) with (writeable s) in *.
+  change (wal_mode sd) with (wal_mode s) in *. change (txid sd) with (txid s) in *. change (chk sd) with (chk s) in *.
+  constructor.
+  - congruence.
+  - congruence.
+  - congruence.
+  - rewrite A3. exact m_lk2.
+  - congruence.
+  - congruence.
+  - congruence.
+  - assumption.
+  - assumption.
+  - intros x Hx Hnl. rewrite A3 in Hnl. rewrite A4.
+    rewrite A9, A10 by assumption. change (dbc sd x) with (dbc s x). change (file_h sd x) with (file_h s x).
+    destruct (N.eqb_spec x p) as [->|Hne].
+    + left. destruct (N.eqb_spec p (lockpg s)); [contradiction|reflexivity].
+    + apply (m_truth0 x Hx Hnl).
+  - intros Hk q1 Hq1. specialize (Hw Hk). destruct (N.eq_dec p 1) as [->|Hne].
+    + pose proof (A10 1 ltac:(lia)) as H1. rewrite N.eqb_refl in H1.
+      unfold file_pg in Hq1. unfold write_db_page in Hq1. cbn [dbfile set_page_chk with_file] in Hq1.
+      change (N.to_nat (1 - 1)) with 0%nat in Hq1. destruct (dbfile sd) as [|x r]; cbn in Hq1; inversion Hq1; subst; assumption.
+    + unfold file_pg in Hq1. unfold write_db_page in Hq1. cbn [dbfile set_page_chk with_file] in Hq1.
+      change (N.to_nat (1 - 1)) with 0%nat in *. change (dbfile sd) with (dbfile s) in Hq1.
+      assert (N.to_nat (p - 1) <> 0%nat) as Hi by lia. destruct (N.to_nat (p - 1)) as [|i]; [congruence|].
+      destruct (dbfile s) as [|x r] eqn:Ef; cbn in Hq1.
+      * inversion Hq1; subst; reflexivity.
+      * apply (m_p2 Hk). unfold file_pg. rewrite Ef. exact Hq1.
+Qed.
+
+(* the same write inside a rollback-journal transaction SQLite runs while the header still says WAL (OWriteJ) *)
+Lemma mid_write_j k s0 s p q : Mid k s0 s -> 1 <= p -> (k = true -> pg_wal q = false) -> Mid k s0 (snd (op_write_page_j s p q)) /\ fst (op_write_page_j s p q) = Done.
+Proof.
+  intros M Hp Hw. destruct M. unfold op_write_page_j. rewrite m_w0. cbn [negb fst snd]. split; [|reflexivity].
   set (sd := with_dirty s (insert_sorted p (dirty s))).
   assert (CacheOK sd) as HCd by exact m_cache0. assert (LockZero sd) as HLd by exact m_lz0.
   destruct (write_db_page_facts sd p q Hp m_lk2 HCd HLd) as [A1 [A2 [A3 [A4 [A5 [A6 [A7 [A8 [A9 A10]]]]]]]]].
@@ -149,13 +185,13 @@ Proof.
   destruct (step s o) as [oc s1]. destruct oc; cbn [ocode]; try reflexivity. apply IH.
 Qed.
 
-Lemma run_writes k s0 : forall wr s, Mid k s0 s -> (forall p q, In (p, q) wr -> 1 <= p /\ (k = true -> pg_wal q = false)) ->
+Lemma run_writes k s0 : wal_mode s0 = false -> forall wr s, Mid k s0 s -> (forall p q, In (p, q) wr -> 1 <= p /\ (k = true -> pg_wal q = false)) ->
   exists s', run_group s (wr_ops wr) = (0, s') /\ Mid k s0 s'.
 Proof.
-  induction wr as [|[p q] wr IH]; intros s M H; cbn [wr_ops map run_group].
+  intros Hm0. induction wr as [|[p q] wr IH]; intros s M H; cbn [wr_ops map run_group].
   - exists s. auto.
   - cbn [step fst snd]. destruct (H p q (or_introl eq_refl)) as [Hp Hw].
-    destruct (mid_write k s0 s p q M Hp Hw) as [M1 E1].
+    destruct (mid_write k s0 s p q M Hm0 Hp Hw) as [M1 E1].
     destruct (op_write_page s p q) as [oc s1]. cbn [fst snd] in *. subst oc.
     apply IH; [assumption|]. intros p' q' Hin. apply H. right; assumption.
 Qed.
@@ -336,13 +372,13 @@ Proof.
     change (N.to_nat (1 - 1)) with 0%nat in *. destruct (N.to_nat (pageN s)); [discriminate|]. destruct (dbfile s); [discriminate|exact Hq].
 Qed.
 
-Lemma run_acts k s0 : forall acts s s', Mid k s0 s -> Forall (act_ok k) acts ->
+Lemma run_acts k s0 : wal_mode s0 = false -> forall acts s s', Mid k s0 s -> Forall (act_ok k) acts ->
   run_group s (act_ops (pageN s0) acts) = (0, s') -> Mid k s0 s'.
 Proof.
-  induction acts as [|a acts IH]; intros s s' M Hok H; cbn [act_ops map run_group] in H.
+  intros Hm0. induction acts as [|a acts IH]; intros s s' M Hok H; cbn [act_ops map run_group] in H.
   - inversion H; subst. exact M.
   - inversion Hok as [|? ? Ha Hok']; subst. destruct a as [p q|]; cbn [step] in H.
-    + destruct Ha as [Hp Hw]. destruct (mid_write k s0 s p q M Hp Hw) as [M1 E1].
+    + destruct Ha as [Hp Hw]. destruct (mid_write k s0 s p q M Hm0 Hp Hw) as [M1 E1].
       destruct (op_write_page s p q) as [oc s1]. cbn [fst snd] in *. subst oc. apply (IH s1 s' M1 Hok' H).
     + destruct (op_truncate s (pageN s0)) as [oc s1] eqn:Et. destruct oc; cbn [ocode] in H; try (inversion H; fail).
       rewrite <- (m_pn k s0 s M) in Et. apply (IH s1 s' (mid_truncate k s0 s s1 M Et) Hok' H).
@@ -422,7 +458,7 @@ Proof.
     { intros p q Hin. destruct (Hzf p q Hin) as [A B]. split; [assumption|]. split; [intros _; assumption|]. apply (j_tail s HJ). assumption. }
     rewrite run_group_app, E1 in H. rewrite run_group_app in H.
     destruct (run_group s1 (act_ops (pageN s) acts)) as [code s2] eqn:E2. destruct code; [|inversion H].
-    pose proof (run_acts true s acts s1 s2 M1 Hacts E2) as M2.
+    pose proof (run_acts true s (j_mode s HJ) acts s1 s2 M1 Hacts E2) as M2.
     apply run_group_one in H. cbn [step] in H.
     destruct (writeable s2 && (pageN s2 =? 0) && match dbfile s2 with [] => true | _ :: _ => false end) eqn:Einv.
     + (* nothing was written and there is no database: the journal is invalidated, nothing is published *)
@@ -433,7 +469,7 @@ Proof.
       split; [|exact m_lock0].
       constructor.
       * exact m_w0.
-      * exact m_mode0.
+      * change (wal_mode s2 = false). rewrite m_mode0. exact j_mode0.
       * exact m_lk2.
       * exact m_cache0.
       * exact m_lz0.
@@ -465,11 +501,11 @@ Proof.
   { intros p q Hin. split; [apply (Hzf p q Hin)|]. split; [discriminate|]. apply (j_tail s HJ). apply (Hzf p q Hin). }
   rewrite run_group_app, E1 in H. rewrite run_group_app in H.
   destruct (run_group s1 (act_ops (pageN s) acts)) as [code s2] eqn:E2. destruct code; [|inversion H].
-  pose proof (run_acts false s acts s1 s2 M1 Hacts E2) as M2.
+  pose proof (run_acts false s (j_mode s HJ) acts s1 s2 M1 Hacts E2) as M2.
   apply run_group_one in H. cbn [step] in H.
   destruct (writeable s2 && (pageN s2 =? 0) && match dbfile s2 with [] => true | _ :: _ => false end).
   - unfold op_invalidate_journal in H. inversion H; subst s'. cbn [wal_mode with_dirty] in Hm.
-    rewrite (m_mode false s s2 M2) in Hm. discriminate.
+    rewrite (m_mode false s s2 M2), (j_mode s HJ) in Hm. discriminate.
   - destruct (mid_commit false s s2 c s' M2 H) as [HB [Et [Ep _]]].
     destruct (commit_journal_fields s2 c s' H) as [_ [F [_ [K _]]]].
     split; [exact HB|]. split; [exact K|]. split; [exact Et|]. split; [exact Ep|]. rewrite F. apply (m_lock false s s2 M2).
